@@ -109,6 +109,10 @@ def build_real(spec, etype):
     return (v for v in vals)
   if kind == "deque":
     return deque(vals)
+  if kind == "hub":            # a Stream subclass with its own dunders
+    return audiolazy.thub(list(vals), 1)
+  if kind == "cstream":        # another Stream subclass, endless
+    return ControlStream(vals[0])
   raise ValueError(kind)
 
 
@@ -120,6 +124,8 @@ def build_model(spec, etype):
   vals = [decode(v, etype) for v in data]
   if kind == "pstream":
     return [vals[i % len(vals)] for i in range(H)], {"more"}
+  if kind == "cstream":
+    return [vals[0]] * H, {"more"}
   if len(vals) >= H:
     return vals[:H], {"more"}
   return vals, {"stop"}
@@ -248,7 +254,7 @@ def rspec(rng, etype, kinds, role="any", op=None, maxlen=6):
       kind = "list"    # a str operand is an iterable of characters, not a scalar
     else:
       return ("scalar", rval(rng, etype, role, op))
-  if kind == "pstream":
+  if kind in ("pstream", "cstream"):
     return (kind, [rval(rng, etype, role, op)
                    for _ in range(rng.randint(1, 4))])
   n = rng.choice([0, 1, 2, 3, 4, 5, 6, maxlen, H + 2][:8]) if rng.random() < .9 \
@@ -256,7 +262,8 @@ def rspec(rng, etype, kinds, role="any", op=None, maxlen=6):
   return (kind, [rval(rng, etype, role, op) for _ in range(n)])
 
 
-OTHER_KINDS = ["stream", "pstream", "list", "tuple", "gen", "scalar", "deque"]
+OTHER_KINDS = ["stream", "pstream", "list", "tuple", "gen", "scalar", "deque",
+               "hub", "cstream"]
 STREAM_KINDS = ["stream", "stream", "pstream"]
 
 
